@@ -206,12 +206,33 @@ func (s *SpokFile) Run(stream iostream.IOStream, runner shell.Runner, force bool
 	s.logger.Debug("Calculated topological sort of dependency graph %v in %v", names, time.Since(sortStart))
 
 	// Submit the run order to be executed and gather up the results
-	results, err := s.run(stream, runner, force, runOrder)
+	watched := &failureWatcher{Runner: runner}
+	results, err := s.run(stream, watched, force, runOrder)
 	if err != nil {
+		if watched.failed != "" {
+			// The results so far are lost along with the run, a task whose command had already
+			// failed by then is still named rather than hidden behind the later error
+			return nil, fmt.Errorf("%w (after a command in task %q had already failed)", err, watched.failed)
+		}
 		return nil, err
 	}
 
 	return results, nil
+}
+
+// failureWatcher is a shell.Runner that remembers the first task a command of which failed.
+type failureWatcher struct {
+	shell.Runner
+	failed string
+}
+
+// Run runs the command with the wrapped runner, taking note of a failure.
+func (f *failureWatcher) Run(cmd string, stream iostream.IOStream, task string, env []string) (shell.Result, error) {
+	result, err := f.Runner.Run(cmd, stream, task, env)
+	if err == nil && !result.Ok() && f.failed == "" {
+		f.failed = task
+	}
+	return result, err
 }
 
 // run is the implementation of the public Run method.
